@@ -22,6 +22,8 @@ ID = "C10"
 
 # schemes whose B vector is a positive multiple of the unifying B vector but whose T vector is not the same multiple
 T_DIFFERENT = [
+    [[0., 1., 1., 0., 1., 1.], [0., 0., 0., 1., 1., 0.]],      # differs from the unifying scheme on T[0] = T[1] only
+    [[0., 1., 1., 0., 1., 1.], [3., 3., 0., 1., 1., 0.]],
     [[0., 2., 2., 0., 2., 2.], [0., 0., 0., .5, .5, .5]],
     [[0., 1., 1., 0., 1., 1.], [1., 1., 0., 1., 1., 1.]],
     [[0., 1., 1., 0., 1., 1.], [.5, .5, 0., .5, .5, 0.]],
@@ -33,7 +35,7 @@ OTHERS = [D.pseudo(), D.induced(), D.extended(), D.unifying(.5), D.pseudo(.5), D
 # near ties: a tie costs 1 + 2**-33 where an inversion costs 1, so scores that differ do so by ~1e-10 relative (exact in
 # double precision for these counts): "minimum" and "equal to the minimum" must be exact comparisons, not tolerant ones
 NEAR_TIE = [D.pseudo(1. + 2. ** -33), D.pseudo(1. - 2. ** -33)]
-SCHEMES_QUICK = ACCEPTED[:3] + T_DIFFERENT + [D.pseudo(), D.induced(), D.extended(), D.unifying(.5), D.GENERIC_B,
+SCHEMES_QUICK = ACCEPTED[:3] + T_DIFFERENT[:5] + [D.pseudo(), D.induced(), D.extended(), D.unifying(.5), D.GENERIC_B,
                                               D.GENERIC_C, D.BOUNDARY[0], D.BOUNDARY[3]] + NEAR_TIE
 SCHEMES_ALL = ACCEPTED + T_DIFFERENT + OTHERS + NEAR_TIE
 
@@ -62,6 +64,9 @@ def _typed_twin_cases(si):
         [[[1], ["1"], [2]], [["1"], [1], [2]], [["1"], [2], [1]], [["1"], [1], [2]]],
         [[[1, 2], ["1"]], [["1", 2], [1]], [["1"], [1, 2]], [["1", 2], [1]]],
         [[["a"], [1], ["1"]], [["a"], ["1"], [1]], [["1"], ["a"], [1]], [["a"], ["1"], [1]]],
+        # integer-like STRING names kept as strings, incomplete: the unified rankings must keep them as strings too
+        [[["1"], ["2"], ["3"], ["4"]], [["4"], ["1"]], [["2"], ["3", "4"]], [["4"], ["1"]]],
+        [[["10"], ["20"]], [["20"], ["30"], ["10"]], [["30"]]],
     ]
     for d in twins:
         yield {"rankings": d, "schemes": si, "namekind": "typed twins (keep_element_types)", "keep_types": True}
